@@ -1,18 +1,35 @@
 from common import Rng
 
 CONFIG = dict(
-    level_text="Kernel-checked Lean theorems over ALL histories of the FSM model (at most one confirmed connection, "
-               "Established only via the handshake, FSM-error on unexpected messages, down frees the slot, Established "
-               "survives, collision survivor = higher identifier) plus the master theorem that the C07 reference checker "
-               "accepts every model run; the model is tied to daemon/src/fsm.rs by running the real PeerFsm and the model on "
-               "the same generated histories and diffing every output and state, with the reference checker as oracle on the "
-               "real outputs.",
-    level_note="Trusted: Lean kernel; axioms propext/Classical.choice/Quot.sound; hand-written model (checked only by the "
-               "correspondence stream); harness glue for raw OPEN / parse-error handling (transcribed from run_select/"
-               "apply_disconnect). Modelled, not verified: tokio scheduling, ConnArbiter close-channel delivery, capability contents.",
+    level_text="Kernel-checked Lean theorems over ALL histories of the FSM model: the master theorem that the C07 reference "
+               "checker accepts every model run; the end-to-end trace theorem (Established at the end of a history => the "
+               "history contains, for that role and in order, connected on a free slot, an acceptable OPEN and a KEEPALIVE, with "
+               "OpenSent/OpenConfirm/Established held in between, i.e. no tear-down); at most one confirmed connection; FSM-error "
+               "on unexpected messages; every tear-down frees the slot and a new attempt is accepted; Established survives a "
+               "newcomer; collision survivor = higher identifier.  The model is tied to the code by two correspondence streams, "
+               "each with the reference checker as oracle on the REAL observations: (1) the real PeerFsm (and the real wire "
+               "parser for OPENs) against the model on generated histories plus an exhaustive breadth-first enumeration of "
+               "reachable model states x the full event alphabet, every output and both states compared; (2) driver level: real "
+               "session code on loopback TCP (accept_connection, ConnArbiter::process with its oneshot close channels, "
+               "run_select, apply_outputs, finish_session, apply_disconnect) against the wire reading of the model, comparing what "
+               "each remote speaker receives (OPEN/KEEPALIVE/NOTIFICATION code+subcode/EOF) and both slot states - so the "
+               "collision Cease is observed where the loser's peer gets it.",
+    level_note="Trusted: Lean kernel; axioms propext/Classical.choice/Quot.sound; hand-written models Rbgp/Fsm/Model.lean and "
+               "Rbgp/Fsm/Wire.lean (checked only by the correspondence streams; the wire stream has no Lean master theorem, its "
+               "checker Rbgp/Fsm/WireSpec.lean re-uses the proved reference transition Spec.next); in the wire rig "
+               "(harness/daemon/rig.rs) session_loop's preamble/tail and run's call of apply_disconnect are transcribed, "
+               "admin shutdown is sent to one role's close channel, timer expiry is provoked by replacing the timer collection "
+               "with sleep(0), and sessions are pumped one at a time to quiescence (no concurrency between the two tasks).  Open "
+               "finding F07-update-before-open-exchange (an UPDATE with routes in OpenSent is answered (3,1), not FSM error "
+               "(5,3)).  An OPEN unacceptable for several reasons may be refused with any NOTIFICATION that applies.  Modelled, "
+               "not verified: tokio scheduling and the races it allows (collision loser still feeding inputs while a new "
+               "connection re-uses the slot; CloseConnection for a duplicate connection is unreachable at quiescence because "
+               "accept_connection refuses it first), capability contents (C16).",
     lean_modules=["Rbgp.Fsm.Props"],
     theorems=[
         "Rbgp.Fsm.Props.check_run_ok",
+        "Rbgp.Fsm.Props.established_trace",
+        "Rbgp.Fsm.Props.acceptable_wire_open",
         "Rbgp.Fsm.Props.at_most_one_confirmed",
         "Rbgp.Fsm.Props.reachable_inv",
         "Rbgp.Fsm.Props.established_only_via_handshake",
@@ -27,24 +44,37 @@ CONFIG = dict(
         "Rbgp.Fsm.Props.established_survives_newcomer",
         "Rbgp.Fsm.Props.collision_survivor",
     ],
+    # one entry point for both kinds of case line: (case ..) -> FSM harness run_case_c07 (re-included),
+    # (wire ..) -> real session code on loopback TCP (harness/daemon/rig.rs)
     harness=dict(kind="daemon", test="event::verif_event::c07::verif_main"),
     profiles=["debug"],
     n_quick=3000, n_thorough=150000, shards=12,
-    nontrivial_re=r"established|down|parse-reject",
-    rule="random histories over both connection roles of one peer (connect, raw OPEN through the real wire parser with "
-         "acceptable/unacceptable AS, hold time and identifier, KEEPALIVE, UPDATE, NOTIFICATION, ROUTE-REFRESH, both timers, "
-         "disconnect, admin shutdown, update-sent), biased towards handshake progress and collisions; all orderings of "
-         "local/remote identifiers; non-trivial = some connection went down, was parse-rejected or reached Established; "
-         "distinct = distinct case line",
+    nontrivial_re=r"established|down|parse-reject|notif|eof",
+    rule="(a) random histories over both connection roles of one peer (connect, raw OPEN through the real wire parser with "
+         "acceptable/unacceptable AS, hold time and identifier - also several at once -, KEEPALIVE, UPDATE, NOTIFICATION, "
+         "ROUTE-REFRESH, both timers, disconnect, admin shutdown, update-sent), biased towards handshake progress and "
+         "collisions; all orderings of local/remote identifiers; (b) exhaustive: breadth-first search over the reachable states "
+         "of the model (28 per configuration) x the full alphabet of 38 role/event pairs, for local identifier lower/equal/"
+         "higher than the remote one: 3192 histories, so Established-vs-newcomer and every collision are covered in every "
+         "run; (c) about one case in forty is a driver-level wire case (real TCP, real ConnArbiter close channels); "
+         "non-trivial = some connection went down, was parse-rejected, reached Established, or a NOTIFICATION/EOF was "
+         "delivered; distinct = distinct case line",
     expect_tokens=["established", "(6 7)", "parse-reject", "(5 3)", "(5 4)", "(5 5)", "hold-expired", "close-connection",
-                   "stop-active-connect", "(2 2)", "remote-notif", "admin-shutdown", "io-error"],
-    trusted_base=["model Rbgp/Fsm/Model.lean of daemon/src/fsm.rs + OPEN acceptance of packet/src/bgp.rs parse_message",
-                  "harness/daemon/fsm.rs: a raw OPEN is built by the harness, parsed by the real PeerCodec; on a parse error "
-                  "the harness feeds Input::Disconnected as apply_disconnect does (transcribed glue, not the real run_select)"],
-    modelled_not_verified=["ConnArbiter's delivery of the collision CEASE through the loser's close channel (observed as the "
-                           "PeerFsmOutput only)", "the race between a collision loser's task still feeding inputs and a new "
-                           "connection re-using the slot (explored only as input sequences)", "capability contents (C16)"],
-    assumptions=["tokio task scheduling is abstracted to a sequence of atomic ConnArbiter::process calls (the arbiter is behind one mutex)"],
+                   "stop-active-connect", "(2 2)", "remote-notif", "admin-shutdown", "io-error",
+                   "wire-obs", "(notif 6 7)", "(notif 2 6)", "(notif 2 3)", "(notif 2 2)", "(notif 5 4)", "(notif 4 0)",
+                   "(notif 6 2)", "refused", "no-conn"],
+    trusted_base=["model Rbgp/Fsm/Model.lean of daemon/src/fsm.rs + OPEN acceptance of packet/src/bgp.rs parse_message; "
+                  "Rbgp/Fsm/Wire.lean: which frames a step's outputs put on the wire",
+                  "harness/daemon/fsm.rs (FSM stream): a raw OPEN is built by the harness, parsed by the real PeerCodec; on a "
+                  "parse error the harness feeds Input::Disconnected (transcribed; the wire stream runs the real path)",
+                  "harness/daemon/rig.rs (wire stream): transcribed session_loop preamble/tail and run->apply_disconnect call, "
+                  "single-threaded pumping to quiescence, 12 ms idle detection"],
+    modelled_not_verified=["races between the two session tasks of one peer (tokio scheduling): the rig serialises them",
+                           "PeerFsmOutput::CloseConnection in apply_outputs (unreachable at quiescence: accept_connection "
+                           "refuses a second connection of a role first)", "run's last block (clear_session_state / "
+                           "enable_active_connect / peer removal)", "capability contents (C16)"],
+    assumptions=["the two session tasks of a peer are serialised: every step runs to quiescence before the next action "
+                 "(the arbiter is behind one mutex; message-level interleavings are histories of the FSM stream)"],
 )
 
 RIDS = [1, 16843009, 33686018, 167772161, 4294967294]
@@ -184,7 +214,7 @@ def gen_wire(r):
     expected = r.pick([0, 65002, 65002])
     evs = []
     prog = {"A": 0, "P": 0}
-    for _ in range(2 + r.below(r.pick([4, 8, 12]))):
+    for _ in range(2 + r.below(r.pick([4, 8, 10]))):
         role = r.pick(["A", "P"])
         p = prog[role]
         if p == 0:
@@ -226,6 +256,6 @@ def gen(seed, n, tier):
     r = Rng(seed * 1000003 + 7)
     cases = []
     for _ in range(n):
-        cases.append(gen_wire(r) if r.chance(1, 20) else gen_case(r))
+        cases.append(gen_wire(r) if r.chance(1, 40) else gen_case(r))   # wire cases cost ~0.3 s of real time each
     cases += bfs_cases()
     return cases
